@@ -57,6 +57,7 @@ def file_pairs(data: bytes):
     """Non-padding (uri, value) pairs of a cache file, by the independent reader (input of a merge)."""
     it = cborx.loads(data)
     assert it.mt == 5
+    assert all(k.mt == 3 and v.mt == 2 for k, v in it.val)   # a file written by a broken tool may decode to anything
     return [(k.val, v.val) for k, v in it.val if k.val != ""]
 
 
@@ -349,6 +350,13 @@ def gen_sweeps(ctx: core.Check):
         for eb in (1, 8, 16, 64, 4096):
             scns.append({"kind": "uri", "eb": eb, "ops": [["add", "u" * ul, 3, 1], ["add", "v" * ul, 0, 2],
                                                            ["add", "w", 70, 3], ["close"]]})
+    # (2b) URIs are TEXT: characters that take 2, 3 and 4 bytes in UTF-8, with byte lengths on both sides of the head widths while
+    # the character counts are not (12 x 'e-acute' = 24 bytes, 128 x = 256 bytes)
+    for u in ("file://caf\u00e9.bin", "file://\u56fa\u4ef6.bin", "\U0001f680fw", "\u00e9" * 11, "\u00e9" * 12, "\u00fc" * 11 + "a",
+              "\u00e9" * 128, "\u56fa" * 8, "a\u0301"):
+        for eb in ((1, 16) if quick else (1, 8, 16, 64, 4096)):
+            scns.append({"kind": "uri-utf8", "eb": eb, "ops": [["add", u, 3, 1], ["add", "w" + u, 0, 2], ["add", "w", 9, 3], ["close"],
+                                                                ["newcache", 8], ["merge", 0], ["close"]]})
     # (3) random sequences of up to 6 slots incl. duplicates, then merge into another block size (with dup)
     n = 150 if quick else 3000
     for _ in range(n):
@@ -384,7 +392,7 @@ def gen_cli(ctx: core.Check):
     n = 12 if ctx.quick else 120
     for k in range(n):
         eb = rng.choice([1, 4, 8, 16, 64, 256])
-        names = [rng.choice(["#app", "#rad", "file://x", "a", "b" * 24]) for _ in range(rng.randint(1, 4))]
+        names = [rng.choice(["#app", "#rad", "file://x", "a", "b" * 24, "file://caf\u00e9.bin", "\u56fa\u4ef6"]) for _ in range(rng.randint(1, 4))]
         if k % 3 == 0:
             names = list(dict.fromkeys(names))
         scns.append({"kind": "cli", "sub": "from_payloads", "eb": eb,
@@ -400,7 +408,7 @@ def gen_cli(ctx: core.Check):
     for k in range(n):
         eb = rng.choice([1, 4, 8, 16, 64])
         groups = []
-        pool = ["#a", "#b", "#c", "d" * 30, "e"]
+        pool = ["#a", "#b", "#c", "d" * 30, "e"] if k % 3 else ["#a", "\u00e9" * 12, "#c", "\U0001f680fw", "e"]
         for g in range(rng.randint(1, 4)):
             ks = rng.sample(pool, rng.randint(0, 2)) if k % 2 else [pool[(g * 2) % 5], pool[(g * 2 + 1) % 5]][: rng.randint(1, 2)]
             groups.append({"pad": rng.choice([-1, 0, 5, 30, 300]),
